@@ -12,6 +12,27 @@ NOTE = ("Trusted base: python ast; the rexsa engine (terms/symeval/flow); the re
         "Nothing in /repo is imported or executed.")
 
 CLAIMS = {
+    "C02": dict(
+        technique="thread-affinity (executor confinement) analysis, event-queue discipline (FIFO/SPSC/hand-off order/guarded joins), wall-clock taint under the simulated-clock specialisation, provenance of delay samplers, API call-sequence agreement",
+        text="Thread schedules are not enumerated. Decided are the structural reasons why the schedule cannot matter: every state-touching wrapper "
+             "function is confined to one single-worker executor, _submit always passes a bound method of the receiving object, task code reaches "
+             "other wrappers only through _submit or the three frozen hand-off queue operations; event queues are used FIFO-only, a hand-off append "
+             "precedes the _submit of its consumer, every popleft is dominated by a length guard; with clock == SIMULATED substituted no queue "
+             "operation, _submit, header/record construction or step argument depends (by value or guard) on time.time(), now() or the real-time "
+             "factor; the non-blocking selector waits for a receive time strictly in the future; delays come from the wrapper's own sampler seeded "
+             "from the step rng, no ambient randomness; run/reset/step compose start, run_until_supervisor, run_supervisor as specified. "
+             "Not decided: confluence of the per-queue protocol itself (informal composition with C03), wall-clock behaviour.",
+        ref="§5 C02"),
+    "C03": dict(
+        technique="ordering abstraction (truth tables over {lt,eq,gt} x flags) of the selection predicates, max-plus bounds, counter dataflow, structural comparison of ring-shift and grouping code",
+        text="Decides: the LATEST / BUFFER consume predicates as exact truth tables incl. the skip tie rule and the expected-arrival formula; the "
+             "strictly-in-the-future guard; the exactly-once tiling table of blocking windows (boundary tick to exactly one of two consecutive steps, "
+             "first step takes everything earlier, scan start index and stride, t_high(N) = t_low(N+1)); recv = max(sent + delay, prev_recv) with "
+             "prev_recv := recv and the recorded delay; counters start at 0 and advance by exactly 1 per tick / selection and stamp seq_in; ts_start >= "
+             "ts_end_prev; the group handed to a step is the tail slice in arrival order with fields (seq_out, ts_sent, ts_recv, payload), every element "
+             "is pushed in order, push rolls by -1 and stores at -1; the record filter keeps seq_in <= last recorded step; the episode filter dominates "
+             "every mutation. Not decided: wall-clock timing, that the future guard waits long enough under every delay distribution.",
+        ref="§5 C03"),
     "C04": dict(
         technique="value numbering to max-plus normal forms (ast dataflow), compared with the reference recurrence per configuration valuation",
         text="Decides, as identities of max-plus normal forms on the simulated-clock branch of the threaded runtime and for every "
@@ -21,6 +42,18 @@ CLAIMS = {
              "recv = max(sent + delay, prev_recv) with prev_recv := recv; ts_max = max(0, awaited arrivals); record fields share these definitions. "
              "Not decided: the wall-clock branch, float rounding at 1e-6.",
         ref="§5 C04"),
+    "C05": dict(
+        technique="typestate automaton extraction and comparison, release-before-wait ordering of the user/supervisor hand-shake, enqueue=>trigger and guard=>pop dataflow over branch atoms, reset-completeness (mutated attributes subset of re-initialised attributes)",
+        text="Termination in general is undecidable. Decided are the structural deadlock- and leak-freedom conditions: every _state assignment happens "
+             "from exactly the reference predecessor states, _submit gates accept exactly the running states (or stopping=True) under the lock and "
+             "return a cancelled future otherwise, STOPPING flip and submission of the stopping task share one lock region; the synchronizer publishes "
+             "action and next-observation futures before resolving the observation, resolves before waiting, waits only while no stop is requested; "
+             "stop() publishes the stop flag before inspecting/cancelling the newest action and waits afterwards; start() = stop, synchronizer reset, "
+             "node resets, startup, wait, start; run_supervisor resolves the action exactly once; every append is followed on every path by a trigger "
+             "of a function that pops that queue, every popleft is length-guarded; every attribute mutated by task code is unconditionally "
+             "re-initialised on the start path (fresh deques, counters/drift/FIFO clamp to 0, episode counter first); the episode filter dominates "
+             "every mutation in the header-receiving entries. Not decided: user startup/stop/step terminating, wall-clock starvation.",
+        ref="§5 C05"),
     "C06": dict(
         technique="path call-count dataflow over branch-condition atoms (A2) plus who-may-call (A1) on resolved call sites",
         text="Decides that on every path through each per-tick region of both runtimes the next link of the chain "
